@@ -364,8 +364,8 @@ def scan_source(ck):
 def run(ck):
     ck.trusted += [
         "C08: the meaning of each emitted SQL shape (model/LogqlMetricSem.v sem_*: GROUP BY = partition by key, aggregates over the group in table order, any() = a member, SELECT aliases shadow source columns of the same name except inside their own definition, intDiv truncates, HAVING filters groups) is a reading of the ClickHouse documentation, not executed: no ClickHouse exists in the sandbox",
-        "C08: values are exact rationals, float64 rounding of ClickHouse is not modelled; varPop / stddevPop / quantile are oracles equal on both sides; cityHash64 of a label map is an injective oracle (no collisions) and insensitive to map entry order",
-        "C08: the rows reaching the metric planners (stream selection, line/label filters, parsers) are an arbitrary row list in which a fingerprint stands for one label set (C07/C04 establish it); timestamps are non-negative; ranges are whole milliseconds",
+        "C08: the main theorems compute with exact rationals; float64 is covered by separate theorems over the model 'every operation returns rnd(exact)' (float64_*: exact parts proved for integer data below 2^53, approximate parts listed in model/LogqlMetricFloat.v); varPop / stddevPop / quantile are oracles equal on both sides; cityHash64 of a label map is an injective oracle (no collisions) and insensitive to map entry order",
+        "C08: the rows reaching the metric planners are tied by theorem (logql_metric_correct_from_stored_data, log_lines_are_consistent) to C07's reference log_rows2 over a database with db_ok and fingerprint = function of the label set, for pipelines without a drop stage; that the SQL of the log part evaluates to those lines is C07's theorem over SqlEval.v (trusted there); timestamps are non-negative",
         "C08: the fragments judged by the spec oracle are located in the implementation's SQL by regular expressions in checks/c08.py",
     ]
     ck.coverage["rule"] += ("metric queries: grammar-driven generator (every range function x vector operator x by/without in prefix/suffix/both x comparison x topk/bottomk x quantile, "
